@@ -404,3 +404,76 @@ func codecsPhase(r *rng.R, thorough bool) {
 		stats["f64-window-classes"] += len(classes)
 	}
 }
+
+// int64Cases (C20): the signed codec over sequences that WRAP: consecutive values at least 2^63
+// apart (the encoder's deltas are modulo 2^64, the decoder wraps back), extremes, sign changes, and
+// random values of every magnitude, across frames with and without Reset. Oracle: the harness's.
+func int64Cases(r *rng.R, thorough bool) {
+	n := 60
+	if thorough {
+		n = 1500
+	}
+	fixed := [][]int64{
+		{math.MinInt64, math.MaxInt64},
+		{-1, math.MaxInt64, -2},
+		{math.MaxInt64, math.MinInt64, math.MaxInt64, 0, math.MinInt64},
+		{0, math.MinInt64, 0, math.MaxInt64, -1, 1},
+		{math.MinInt64 + 1, math.MaxInt64 - 1, math.MinInt64 + 1},
+	}
+	for c := 0; c < n; c++ {
+		name := fmt.Sprintf("i64-%d", c)
+		note("case %s", name)
+		var lim pkg.SizeLimiter
+		lim.Init(&pkg.WriterOptions{})
+		var ie codecs.Int64Encoder
+		var id codecs.Int64Decoder
+		var rb pkg.ReadBufs
+		ie.Init(&lim, nil)
+		id.Init(&rb.Columns)
+		frames := 1 + r.Intn(3)
+		for f := 0; f < frames; f++ {
+			var vals []int64
+			if c < len(fixed) && f == 0 {
+				vals = fixed[c]
+			} else {
+				for k := r.Intn(20); k >= 0; k-- {
+					var v int64
+					switch r.Intn(5) {
+					case 0:
+						v = int64(r.U64())
+					case 1:
+						v = []int64{math.MinInt64, math.MaxInt64, -1, 0, 1, math.MinInt64 + 1, math.MaxInt64 - 1}[r.Intn(7)]
+					case 2:
+						v = -int64(r.U64() >> uint(r.Intn(64)))
+					default:
+						v = int64(r.U64() >> uint(r.Intn(64)))
+					}
+					vals = append(vals, v)
+				}
+			}
+			for _, v := range vals {
+				ie.Encode(v)
+			}
+			var wb pkg.WriteBufs
+			ie.CollectColumns(&wb.Columns)
+			if _, err := transfer(&wb, &rb); err != nil {
+				propFail("C20 codec-transfer-error case=%s kind=i64 err=%v", name, err)
+				return
+			}
+			id.Continue()
+			for i, v := range vals {
+				var got int64
+				if err := id.Decode(&got); err != nil || got != v {
+					propFail("C20 int64-roundtrip case=%s frame=%d: the values %v were encoded with Int64Encoder; Int64Decoder returned %d, %v for element %d (want %d)", name, f, vals, got, err, i, v)
+					return
+				}
+			}
+			stats["i64-values"] += len(vals)
+			if f+1 < frames && r.Bool() {
+				ie.Reset()
+				id.Reset()
+			}
+		}
+		note("nontrivial %x", uint64(c)<<8|uint64(frames))
+	}
+}
